@@ -96,6 +96,7 @@ class LFDomain:
         self.feas_timeout_ms = 4000
         self.lemmas = []  # extra LFConds assumed in every query (justified by the harness)
         self.strip_multiples = True
+        self.qq_rule = False      # quotient-of-quotient canonicalisation (enabled by byte/bit-slicing kernels)
 
     # ------------------------------------------------------------ atoms
     def new_atom(self, kind, lo, hi, name=None, **kw):
@@ -228,6 +229,18 @@ class LFDomain:
             res = (LF({ea: 1}), LF())
             memo[key] = res
             return res
+        if self.qq_rule and len(ef.t) == 1 and ef.c == 0:
+            # floor(floor(F/m1)/m) = floor(F/(m1*m)) for slices of one machine word: successive shifts / bit-field
+            # extractions of a word share their atoms (and their weighted sums telescope)
+            (a0, k0), = ef.t.items()
+            d0 = self.atoms[a0]
+            if k0 == 1 and d0["kind"] == "q" and d0["m"] > 0 and d0["m"] * m <= (1 << 64):
+                flo, fhi = self.rng(path, LF.of(d0["form"]))
+                if 0 <= flo and fhi < (1 << 64):
+                    Q, _ = self.divmod(path, d0["form"], d0["m"] * m)
+                    res = (Q, LF({a0: 1}) - Q.scale(m))
+                    memo[key] = res
+                    return res
         if self.strip_multiples:
             # canonical form: f = m*h + f0 with h collecting the terms whose coefficient is a multiple of m (carries /
             # borrows of earlier word operations) => f div m = h + (f0 div m), f mod m = f0 mod m.  The remainder and
